@@ -65,6 +65,8 @@ pub fn classify(msg: &str) -> String {
         "I"
     } else if msg.contains("static_text().is_some()") {
         "e"
+    } else if msg.contains("entered unreachable code") {
+        "!"
     } else if msg.contains("Bad offset") || msg.contains("Bad range") {
         "o"
     } else if msg.contains("assertion `left == right` failed") && msg.contains("RawSyntaxKind(") {
